@@ -286,7 +286,7 @@ func specAtom(a attrKind, pns, key, v string, r *request) bool {
 			return false
 		}
 		if strings.Contains(v, "{*}") || strings.Contains(v, "{**}") {
-			return templateMatch(strings.NewReplacer("{*}", "*", "{**}", "**").Replace(v), r.path)
+			return templateSegments(strings.Split(strings.NewReplacer("{*}", "*", "{**}", "**").Replace(v), "/"), strings.Split(r.path, "/"))
 		}
 		return strForm(v, r.path)
 	case aHeader:
@@ -742,4 +742,28 @@ func (s *sut) usesHTTPOnly() bool {
 		}
 	}
 	return false
+}
+
+// templateSegments: path templates segment by segment: `*` = one non-empty segment, `**` = one or more
+// segments, a literal = itself (the Go interpreter evaluates templates differently: by regex).
+func templateSegments(ts, segs []string) bool {
+	if len(ts) == 0 {
+		return len(segs) == 0
+	}
+	if len(segs) == 0 {
+		return false
+	}
+	t, s := ts[0], segs[0]
+	if t == "**" {
+		for k := 1; k <= len(segs); k++ {
+			if templateSegments(ts[1:], segs[k:]) {
+				return true
+			}
+		}
+		return false
+	}
+	if t == "*" {
+		return s != "" && templateSegments(ts[1:], segs[1:])
+	}
+	return s == t && templateSegments(ts[1:], segs[1:])
 }
